@@ -215,7 +215,10 @@ def run(ctx):
             instances = {}
             if typed_args and not missing_required:
                 targs = {**args, **typed_args}
-                want = {n: observe(env.convert, v, build(next(f.ty for f in init_fields if f.name == n))) for n, v in typed_args.items()}
+                # what the documentation says convert is, spelled out (not convert() itself: a shortcut inside it would fool the comparison)
+                def two_step(v, FT):
+                    return env.from_data(env.into_data(v, FT), FT)
+                want = {n: observe(two_step, v, build(next(f.ty for f in init_fields if f.name == n))) for n, v in typed_args.items()}
                 if bad is None and all(w.kind != 'escape' for w in want.values()):
                     out = observe(cls, **targs)
                     ctx.count('constructions')
